@@ -101,6 +101,16 @@ def discharge(obligations, timeout_ms=10000, cross_check=False):
                 retry.append((i, smt2, to))
             elif cross_check and r == "unsat" and obligations[i].kind != "canary":
                 retry.append((i, smt2, to))
+        # z3 verdicts can flip to unknown when all cores are busy: one more
+        # attempt with a longer budget before the second back end is consulted
+        again = [(i, smt2, to) for (i, smt2, to) in retry if results[i]["verdict"] == "unknown"]
+        if again:
+            outs2 = pool().map(_run_z3, [(j[1], j[2] * 3, True) for j in again], chunksize=1)
+            for (i, smt2, to), (r, model, t, reason) in zip(again, outs2):
+                results[i]["time_s"] += t
+                if r in ("sat", "unsat"):
+                    results[i].update({"verdict": r, "model": model, "reason": "", "retried": True})
+            retry = [x for x in retry if results[x[0]]["verdict"] == "unknown" or cross_check]
         if retry:
             outs = pool().map(_run_cvc5, [(j[1], j[2]) for j in retry], chunksize=1)
             for (i, smt2, to), (r, t, err) in zip(retry, outs):
